@@ -174,3 +174,74 @@ Proof.
   apply local_bind; [apply local_rd_if|intros dgdi]. apply local_bind; [apply local_rd|intros cnt].
   apply local_many_S; [apply local_sgpd_item|apply progress_sgpd_item|intros its; apply local_pret].
 Qed.
+
+(* ---------------------------------------------------------------- print-then-parse with the reserved byte of seig zeroed *)
+(* the encoder writes 0 where a seig entry has its reserved byte: the entry decoded from those bytes is the same, with 0 captured *)
+Lemma many_zero {A} (p : parser A) (wr : A -> list N) (z : A -> A) :
+  (forall bs a r, bytes_ok bs = true -> p bs = Ok (a, r) -> bytes_ok r = true /\ forall r2, p (wr (z a) ++ r2) = Ok (z a, r2)) ->
+  forall f cnt bs l r, bytes_ok bs = true -> rd_many f cnt p bs = Ok (l, r) ->
+  forall f' r2, (length l <= f')%nat -> rd_many f' cnt p (flat_map wr (map z l) ++ r2) = Ok (map z l, r2).
+Proof.
+  intros Hp. induction f as [|f IH]; intros cnt bs l r Hok H; cbn [rd_many] in H.
+  - destruct (cnt =? 0) eqn:Ec; [|discriminate]. injection H as <- <-.
+    intros f' r2 _. destruct f'; cbn [rd_many map flat_map app]; now rewrite Ec.
+  - destruct (cnt =? 0) eqn:Ec.
+    + injection H as <- <-. intros f' r2 _. destruct f'; cbn [rd_many map flat_map app]; now rewrite Ec.
+    + destruct (p bs) as [[a r1]| | |] eqn:E1; try discriminate.
+      destruct (rd_many f (cnt - 1) p r1) as [[l' r']| | |] eqn:E2; try discriminate.
+      injection H as <- <-. destruct (Hp _ _ _ Hok E1) as [Hok1 H1].
+      intros f' r2 Hf. destruct f' as [|f']; [cbn in Hf; lia|]. cbn [rd_many map flat_map].
+      rewrite Ec, <- app_assoc, H1, (IH _ _ _ _ Hok1 E2) by (cbn in Hf; lia). reflexivity.
+Qed.
+
+Lemma rdB_lit0 x n r : lenN x = n -> rdB n (x ++ r) = Ok (x, r).
+Proof. intros <-. apply rdB_app. Qed.
+
+Lemma sge_zero gt dl bs e rb r : bytes_ok bs = true -> rd_sge gt dl bs = Ok ((e, rb), r) ->
+  forall r2, rd_sge gt dl (wr_sge e 0 ++ r2) = Ok ((e, 0), r2).
+Proof.
+  intros Hok H. destruct (bytes_eqb gt n_seig) eqn:Es.
+  - (* seig: the first byte is read and only handed back *)
+    unfold rd_sge in H. rewrite Es in H.
+    do 5 step H. apply pbind_ok in H. destruct H as (civ & r6 & E & H). cbv beta zeta in H.
+    destruct (negb (dl =? sge_size (SSeig (a0 / 16) (a0 mod 16) a1 a2 a3 civ))) eqn:Ez; [discriminate H|]. inj_pret H.
+    unfold rd_sge. rewrite Es. cbn [wr_sge]. rewrite seig_nibbles by assumption.
+    unfold pbind. repeat rewrite <- app_assoc.
+    rewrite (rd_enc 1 0) by (change (256 ^ N.of_nat 1) with 256; lia). cbv beta iota.
+    rewrite !rd_enc by assumption. cbv beta iota. rewrite (rdB_lit0 a3 16) by assumption. cbv beta iota.
+    destruct ((a1 =? 1) && (a2 =? 0)) eqn:Eb.
+    + step E. solve_read E. repeat rewrite <- app_assoc.
+      rewrite rd_enc by (rewrite Hlen0; assumption). cbv beta iota. rewrite (rdB_lit0 civ (lenN civ)) by reflexivity. cbv beta iota.
+      rewrite Ez. reflexivity.
+    + inj_pret E. cbn [app]. unfold pret at 1. cbv beta iota. rewrite Ez. reflexivity.
+  - (* every other grouping type: nothing is captured, the bytes are the same *)
+    assert (rb = 0).
+    { unfold rd_sge in H. rewrite Es in H. destruct (bytes_eqb gt n_roll); [run H; inj_pret H; reflexivity|].
+      destruct (bytes_eqb gt n_rap); [run H; inj_pret H; reflexivity|].
+      destruct (bytes_eqb gt n_alst).
+      - apply pbind_ok in H. destruct H as (? & ? & _ & H). apply pbind_ok in H. destruct H as (? & ? & _ & H). cbv beta in H.
+        apply pbind_ok in H. destruct H as (? & ? & _ & H). cbv beta zeta in H.
+        destruct (dl <? 4 + 4 * x); [discriminate H|]. destruct ((dl - (4 + 4 * x)) / 4 =? 0).
+        + destruct (negb (dl =? 4 + 4 * x)); [discriminate H|]. now inj_pret H.
+        + match type of H with (if ?c then _ else _) = _ => destruct c end; [discriminate H|].
+          apply pbind_ok in H. destruct H as (? & ? & _ & H).
+          match type of H with (if ?c then _ else _) _ = _ => destruct c end; [discriminate H|]. now inj_pret H.
+      - run H. now inj_pret H. }
+    subst rb. destruct (item_sge _ _ _ _ _ _ Hok H) as (-> & _ & _).
+    destruct (local_sge gt dl _ _ _ H) as (x & Hx & Hall). apply app_inv_tail in Hx. subst x. exact Hall.
+Qed.
+
+Lemma sgpd_item_zero v dlen gt bs it r : bytes_ok bs = true -> rd_sgpd_item v dlen gt bs = Ok (it, r) ->
+  bytes_ok r = true /\ forall r2, rd_sgpd_item v dlen gt (wr_sgpd_item dlen (fst it, 0) ++ r2) = Ok ((fst it, 0), r2).
+Proof.
+  intros Hok H. split; [exact (proj1 (proj2 (item_sgpd _ _ _ _ _ _ Hok H)))|].
+  unfold rd_sgpd_item in H. apply pbind_ok in H. destruct H as (dl & r1 & E & H). cbv beta zeta in H.
+  destruct (dl =? 0) eqn:E0; [discriminate H|].
+  apply pbind_ok in H. destruct H as ([e rb] & r3 & E2 & H). unfold pret in H. injection H as <- <-. cbn [fst snd].
+  intros r2. unfold rd_sgpd_item, wr_sgpd_item, pbind. cbn [fst snd].
+  destruct ((1 <=? v) && (dlen =? 0)) eqn:Ec.
+  - apply andb_true_iff in Ec. destruct Ec as [Ev Ed]. rewrite Ed. destruct (rd_spec _ _ _ _ Hok E) as (-> & Hdl & Hok1).
+    rewrite <- app_assoc, rd_enc by assumption. cbv beta iota. rewrite E0, (sge_zero _ _ _ _ _ _ Hok1 E2). reflexivity.
+  - unfold pret in E. injection E as Hd Hb. subst dl r1.
+    rewrite E0. cbn [app]. unfold pret at 1. cbv beta iota. rewrite E0, (sge_zero _ _ _ _ _ _ Hok E2). reflexivity.
+Qed.
